@@ -59,15 +59,17 @@ theorem createOperand_init {s : Str} {row : InstrRow} {o : Operand} (h : createO
               | (cases h; done)
               | (cases h; exact ⟨fun N => createV_good N ‹_›, by simp [Value.isLeftRight], by simp, by simp⟩)
 
-/-- an operand after `resolve_symbols` (`N` = number of statements) -/
+/-- an operand after `resolve_symbols` (`N` = number of statements).  `pseudo`: the operand of a pseudo operation
+(ORG in particular) is never resolved, so it contains no label at all (`Good 0`: no address index) -/
 structure OpRes (N : Nat) (row : InstrRow) (o : Operand) : Prop where
   good : o.value.Good N
+  pseudo : o.kind = .pseudo → o.value.Good 0
   right : o.right ≠ none → o.value.isLeftRight = true
   left : ∀ v, o.left = .val v → v.Good N
   rel : o.kind = .relative → (row.isShortBranch || row.isLongBranch) = true
 
 theorem OpInit.toRes {N : Nat} {row : InstrRow} {o : Operand} (hi : OpInit row o) : OpRes N row o :=
-  ⟨hi.good N, fun h => (hi.right h).1, fun v hv => absurd hv (hi.left v), hi.rel⟩
+  ⟨hi.good N, fun _ => hi.good 0, fun h => (hi.right h).1, fun v hv => absurd hv (hi.left v), hi.rel⟩
 
 private abbrev mkLeft (o : Operand) (k : OpKind) (v : Value) : Operand :=
   { kind := k, text := o.text, value := o.value, left := Side.val v, right := o.right }
@@ -82,7 +84,7 @@ theorem resolveOperand_res {N : Nat} {t : SymTab} (ht : SymTab.Good N t) {o o' :
     split at h
     · obtain ⟨a, ha, hf⟩ := map_ok h
       subst hf
-      exact ⟨hi.good N, fun h => (hi.right h).1, fun v hv => by cases hv; exact resolveLeft_good ht ha, hi.rel⟩
+      exact ⟨hi.good N, fun _ => hi.good 0, fun h => (hi.right h).1, fun v hv => by cases hv; exact resolveLeft_good ht ha, hi.rel⟩
     · cases h; exact hi.toRes
   unfold resolveOperand at h
   cases hk : o.kind <;> simp only [hk] at h
@@ -97,7 +99,7 @@ theorem resolveOperand_res {N : Nat} {t : SymTab} (ht : SymTab.Good N t) {o o' :
     · rename_i hc
       obtain ⟨a, ha, hf⟩ := map_ok h
       subst hf
-      refine ⟨Value.resolve_good ht (hi.good N) ha, ?_, fun v hv => absurd hv (hi.left v), by simp⟩
+      refine ⟨Value.resolve_good ht (hi.good N) ha, by intro hp; simp [hk] at hp, ?_, fun v hv => absurd hv (hi.left v), by simp⟩
       intro hr
       have := (hi.right hr).1
       simp [this] at hc
@@ -116,9 +118,9 @@ theorem resolveOperand_res {N : Nat} {t : SymTab} (ht : SymTab.Good N t) {o o' :
       repeat' split at h
       all_goals first
         | (cases h; done)
-        | (cases h; exact ⟨hv, by simp [hrn], fun v hv => absurd hv (hi.left v), by first | exact fun _ => hi.rel hk | simp⟩)
+        | (cases h; exact ⟨hv, by intro hp; simp [hk] at hp, by simp [hrn], fun v hv => absurd hv (hi.left v), by first | exact fun _ => hi.rel hk | simp⟩)
         | (obtain ⟨a, ha, hf⟩ := map_ok h; subst hf
-           exact ⟨numericOfInt_good N ha (by omega), by simp [hrn], fun v hv => absurd hv (hi.left v), by simp⟩)
+           exact ⟨numericOfInt_good N ha (by omega), by intro hp; simp at hp, by simp [hrn], fun v hv => absurd hv (hi.left v), by simp⟩)
 
 /-! ### `translate` -/
 
@@ -258,9 +260,10 @@ theorem regBits_lt (r : Str) : regBits r < 128 := by
 theorem or_lt_256 {a b : Nat} (ha : a < 256) (hb : b < 256) : a ||| b < 256 :=
   Nat.or_lt_two_pow (n := 8) ha hb
 
-/-- what the later stages need of a translated package -/
+/-- what the later stages need of a translated package.  `addr`: a preset address (ORG) contains no label
+(`Good 0`), so its `.int` is a 16-bit magnitude however many statements there are -/
 structure PkgOK (N : Nat) (row : InstrRow) (o : Operand) (p : Pkg) : Prop where
-  addr : p.address.Good N
+  addr : p.address.Good 0
   choices : ChoicesOK N p
   rel : o.kind = .relative → (∃ b, p.additional.int? = some b) ∧ (row.isShortBranch = false → 1 ≤ p.size)
   needs : p.needsRes = true → o.value.isLeftRight = true ∧ (o.kind = .indexed ∨ o.kind = .extIndirect)
@@ -305,7 +308,7 @@ theorem translatePseudo_ok {N : Nat} {row : InstrRow} {o : Operand} {p : Pkg}
   all_goals first
     | (cases h; done)
     | (cases h; exact ⟨trivial, Or.inl rfl, by simp [hk], by simp⟩)
-    | (cases h; exact ⟨hres.good, Or.inl rfl, by simp [hk], by simp⟩)
+    | (cases h; exact ⟨hres.pseudo hk, Or.inl rfl, by simp [hk], by simp⟩)
 
 theorem translateSpecial_ok {N : Nat} {row : InstrRow} {o : Operand} {p : Pkg}
     (hk : o.kind = .special) (h : translateSpecial o row = .ok p) : PkgOK N row o p := by
